@@ -16,7 +16,7 @@ impl World {
     /// Members on which one of a, b is ahead of the other and which both advertise.
     fn lagging(&self, a: usize, b: usize) -> Vec<Id> {
         let mut out = Vec::new();
-        if self.cfg.cluster_of[a] != self.cfg.cluster_of[b] {
+        if self.cluster_now[a] != self.cluster_now[b] {
             return out;
         }
         let (sa, sb) = (self.scheduled(a), self.scheduled(b));
@@ -162,7 +162,7 @@ impl World {
         if self.on("C01") {
             for &a in &running {
                 for &b in &running {
-                    if a < b && self.cfg.cluster_of[a] == self.cfg.cluster_of[b] {
+                    if a < b && self.cluster_now[a] == self.cluster_now[b] {
                         if !self.lagging(a, b).is_empty() {
                             lag_at_start = true;
                         }
@@ -176,7 +176,7 @@ impl World {
         for &a in &running {
             self.apply_inner_heartbeat_gc(a)?;
             for &b in &running {
-                if a != b && self.cfg.cluster_of[a] == self.cfg.cluster_of[b] {
+                if a != b && self.cluster_now[a] == self.cluster_now[b] {
                     self.handshake(a, b)?;
                 }
             }
@@ -193,7 +193,7 @@ impl World {
             }
             for &a in &running {
                 for &b in &running {
-                    if a < b && self.cfg.cluster_of[a] == self.cfg.cluster_of[b] && self.hog(a, b).is_some() {
+                    if a < b && self.cluster_now[a] == self.cluster_now[b] && self.hog(a, b).is_some() {
                         hog_in_round = true;
                     }
                 }
@@ -234,8 +234,8 @@ impl World {
         let running = self.cluster_running();
         let long_grace = self.cfg.dead_grace_ms.iter().all(|g| *g / 2 > self.now_ms + 1_000_000);
         for inc in &self.incs {
-            let cl = self.cfg.cluster_of[inc.pos];
-            let observers: Vec<usize> = running.iter().copied().filter(|p| self.cfg.cluster_of[*p] == cl).collect();
+            let cl = inc.cluster;
+            let observers: Vec<usize> = running.iter().copied().filter(|p| self.cluster_now[*p] == cl).collect();
             let mvs: Vec<(usize, u64)> = observers.iter().map(|p| (*p, self.nodes[*p].as_ref().unwrap().view.get(&inc.id).map(|c| c.mv).unwrap_or(0))).collect();
             if inc.running {
                 for (p, mv) in &mvs {
